@@ -3,6 +3,7 @@ From Coq Require Import List ZArith NArith Bool Lia Arith.
 From Kardia Require Import C15.Crc32c C15.ProofsCrc C15.Model Generated.C15Facts.
 Import ListNotations.
 Ltac Zify.zify_post_hook ::= Z.div_mod_to_equations.
+Set Default Proof Using "Type".
 
 (** side condition on the constant regenerated from the source on every run *)
 Lemma max_fits : (max_msg_size_bytes < 4294967296)%N.
@@ -47,13 +48,27 @@ Proof.
   clear - E1 E2 E3. subst x y1 y2. ring.
 Qed.
 
+Lemma digit_div q B r : (r < B)%N -> ((q * B + r) / B = q)%N.
+Proof. intro H. symmetry. apply (N.div_unique _ B q r); auto. ring. Qed.
+Lemma digit_mod q r : (r < 256)%N -> ((q * 256 + r) mod 256 = r)%N.
+Proof. intro H. symmetry. apply (N.mod_unique _ 256 q r); auto. ring. Qed.
+
 Lemma be32_of_be32 b : length b = 4 -> wf_bytes b -> be32 (of_be32 b) = b.
 Proof.
   intros L W. destruct b as [|a [|b [|c [|d [|e t]]]]]; try discriminate L.
   unfold wf_bytes in W.
   inversion W as [|? ? Ha W1]; subst. inversion W1 as [|? ? Hb W2]; subst.
   inversion W2 as [|? ? Hc W3]; subst. inversion W3 as [|? ? Hd W4]; subst.
-  unfold of_be32, be32. repeat f_equal; lia.
+  unfold of_be32, be32.
+  set (v := (((a * 256 + b) * 256 + c) * 256 + d)%N).
+  assert (D3 : (v / 16777216 = a)%N).
+  { replace v with (a * 16777216 + (b * 65536 + c * 256 + d))%N by (unfold v; ring). apply digit_div. lia. }
+  assert (D2 : (v / 65536 = a * 256 + b)%N).
+  { replace v with ((a * 256 + b) * 65536 + (c * 256 + d))%N by (unfold v; ring). apply digit_div. lia. }
+  assert (D1 : (v / 256 = (a * 256 + b) * 256 + c)%N).
+  { unfold v. apply digit_div. exact Hd. }
+  rewrite D3, D2, D1. unfold v. rewrite !digit_mod by assumption. rewrite (N.mod_small a 256) by exact Ha.
+  reflexivity.
 Qed.
 
 Lemma of_be32_lt b : length b = 4 -> wf_bytes b -> (of_be32 b < 4294967296)%N.
@@ -79,38 +94,80 @@ Proof.
   destruct k; cbn [rd].
   - destruct n as [|n].
     + intro E. inversion E; subst. split; auto. exists 0. cbn. rewrite app_nil_r. auto.
-    + destruct bs as [|b bs]; [discriminate|]. intro E. inversion E; subst. clear E.
-      unfold pad_to. destruct (le_lt_dec (S n) (length (b :: bs))) as [L|L].
-      * rewrite firstn_length_le by exact L. replace (S n - S n) with 0 by lia. cbn [repeat].
+    + destruct bs as [|b bs]; [discriminate|].
+      assert (NE : b :: bs <> []) by discriminate. remember (b :: bs) as l eqn:Hl. clear Hl b bs.
+      intro E. assert (Ed : d = pad_to (S n) (firstn (S n) l)) by congruence.
+      assert (Er : r = skipn (S n) l) by congruence. clear E. subst d r.
+      unfold pad_to. destruct (le_lt_dec (S n) (length l)) as [L|L].
+      * rewrite (firstn_length_le l L). replace (S n - S n) with 0 by lia. cbn [repeat].
         rewrite app_nil_r. split; [apply firstn_length_le; exact L|].
         exists 0. cbn [repeat]. rewrite app_nil_r, firstn_skipn. auto.
-      * rewrite firstn_all2 by lia. rewrite skipn_all2 by lia. split.
+      * rewrite (firstn_all2 l) by lia. rewrite (skipn_all2 l) by lia. split.
         { rewrite app_length, repeat_length. lia. }
-        exists (S n - length (b :: bs)). rewrite app_nil_r. split; auto.
-        right. repeat split; auto. discriminate.
+        exists (S n - length l). rewrite app_nil_r. split; auto.
   - destruct n as [|n]; [discriminate|].
     destruct (Nat.ltb (length bs) (S n)) eqn:L; [discriminate|].
-    apply Nat.ltb_ge in L. intro E. inversion E; subst. split; [apply firstn_length_le; exact L|].
+    apply Nat.ltb_ge in L. intro E. assert (Ed : d = firstn (S n) bs) by congruence.
+    assert (Er : r = skipn (S n) bs) by congruence. clear E. subst d r. split; [apply firstn_length_le; exact L|].
     exists 0. cbn [repeat]. rewrite app_nil_r, firstn_skipn. auto.
 Qed.
 
 Lemma rd_full k p r : p <> [] -> rd k (length p) (p ++ r) = (p, r, ROk).
 Proof.
-  intro Hp. destruct p as [|a p]; [congruence|]. destruct k; cbn [rd length app].
-  - change (a :: p ++ r) with ((a :: p) ++ r). change (S (length p)) with (length (a :: p)).
+  intro Hp. destruct p as [|a p]; [congruence|]. remember (a :: p) as q eqn:Hq.
+  assert (Lq : exists n0, length q = S n0) by (subst q; cbn; eauto). destruct Lq as [n0 Lq].
+  assert (NE : exists b l, q ++ r = b :: l) by (subst q; cbn; eauto). destruct NE as [b [l NE]].
+  clear Hq Hp a p. unfold rd. destruct k.
+  - rewrite Lq, NE. cbv beta iota. rewrite <- Lq, <- NE.
     rewrite firstn_length_app, skipn_length_app. unfold pad_to. rewrite Nat.sub_diag. cbn [repeat]. rewrite app_nil_r. reflexivity.
-  - change (a :: p ++ r) with ((a :: p) ++ r). change (S (length p)) with (length (a :: p)).
-    assert (L : Nat.ltb (length ((a :: p) ++ r)) (length (a :: p)) = false).
+  - assert (L : Nat.ltb (length (q ++ r)) (length q) = false).
     { apply Nat.ltb_ge. rewrite app_length. lia. }
-    rewrite L, firstn_length_app, skipn_length_app. reflexivity.
+    rewrite Lq in *. cbv beta iota. rewrite L. rewrite <- Lq.
+    rewrite firstn_length_app, skipn_length_app. reflexivity.
 Qed.
 
 Lemma rd_4 k a b c d r : rd k 4 (a :: b :: c :: d :: r) = ([a; b; c; d], r, ROk).
 Proof. apply (rd_full k [a; b; c; d] r). discriminate. Qed.
 
+Lemma rd_rest_le k n bs b r s : rd k n bs = (b, r, s) -> length r <= length bs.
+Proof.
+  destruct k; cbn [rd].
+  - destruct n; [intro E; assert (r = bs) by congruence; subst; lia|].
+    destruct bs as [|x bs']; [intro E; assert (r = []) by congruence; subst; cbn; lia|].
+    remember (x :: bs') as l. intro E. assert (r = skipn (S n) l) by congruence. subst r. rewrite skipn_length. lia.
+  - destruct n; [intro E; assert (r = bs) by congruence; subst; lia|].
+    destruct (Nat.ltb (length bs) (S n)); intro E.
+    + assert (r = []) by congruence. subst. cbn. lia.
+    + assert (r = skipn (S n) bs) by congruence. subst r. rewrite skipn_length. lia.
+Qed.
+
+Lemma rd_rest_lt k n bs b r : rd k (S n) bs = (b, r, ROk) -> length r < length bs.
+Proof.
+  destruct k; cbn [rd].
+  - destruct bs as [|x bs']; [discriminate|].
+    remember (x :: bs') as l. intro E. assert (r = skipn (S n) l) by congruence. subst r. rewrite skipn_length. subst l. cbn. lia.
+  - destruct (Nat.ltb (length bs) (S n)) eqn:L; [discriminate|]. apply Nat.ltb_ge in L. intro E.
+    assert (r = skipn (S n) bs) by congruence. subst r. rewrite skipn_length. lia.
+Qed.
+
+Lemma lenN_le_max_lt p : (lenN p <= max_msg_size_bytes)%N -> (lenN p < 4294967296)%N.
+Proof. pose proof max_fits. lia. Qed.
+
+
+Section FrameBasic.
+  Variable crc : bytes -> N.
+  Notation frame := (frame crc).
+  Lemma frame_length p : length (frame p) = 8 + length p.
+  Proof. unfold Model.frame. rewrite !app_length, !be32_length. lia. Qed.
+
+  Lemma frame_wf p : wf_bytes p -> wf_bytes (frame p).
+  Proof. intro H. unfold Model.frame. apply wf_app. split; [apply be32_wf|]. apply wf_app. split; [apply be32_wf|auto]. Qed.
+
+End FrameBasic.
+
 Section Decode.
   Variable crc : bytes -> N.
-  Hypothesis crc_range : forall x, (crc x < 4294967296)%N.
+  Hypothesis crc_range : forall x, wf_bytes x -> (crc x < 4294967296)%N.
   Variable msg : Type.
   Variable deser : bytes -> option msg.
 
@@ -119,21 +176,12 @@ Section Decode.
   Notation decode := (decode crc msg deser).
   Notation decode_full := (decode_full crc msg deser).
 
-  Lemma frame_length p : length (frame p) = 8 + length p.
-  Proof. unfold Model.frame. rewrite !app_length, !be32_length. lia. Qed.
-
-  Lemma frame_wf p : wf_bytes p -> wf_bytes (frame p).
-  Proof. intro H. unfold Model.frame. apply wf_app. split; [apply be32_wf|]. apply wf_app. split; [apply be32_wf|auto]. Qed.
-
-  Lemma lenN_le_max_lt p : (lenN p <= max_msg_size_bytes)%N -> (lenN p < 4294967296)%N.
-  Proof. pose proof max_fits. lia. Qed.
-
   (** completeness: a well-formed frame at the head of the stream is decoded, by both readers *)
   Lemma decode_frame k p m rest :
-    (lenN p <= max_msg_size_bytes)%N -> p <> [] -> deser p = Some m ->
+    wf_bytes p -> (lenN p <= max_msg_size_bytes)%N -> p <> [] -> deser p = Some m ->
     decode_full k (frame p ++ rest) = (OMsg m rest, lenN p).
-  Proof.
-    intros Hl Hne Hd. unfold Model.decode_full, Model.frame.
+  Proof using crc_range.
+    intros Wp Hl Hne Hd. unfold Model.decode_full, Model.frame.
     unfold be32 at 1. cbn [app]. rewrite rd_4.
     unfold be32 at 1. cbn [app]. rewrite rd_4.
     fold (be32 (lenN p)). fold (be32 (crc p)).
@@ -144,7 +192,7 @@ Section Decode.
   Qed.
 
   Lemma decode_nil k : decode k [] = OEof.
-  Proof. destruct k; reflexivity. Qed.
+  Proof using crc_range. destruct k; reflexivity. Qed.
 
   (** soundness, for any bytes: a message is returned only for a CRC-consistent frame at the head
       of the stream whose length field is within the limit; the os.File reader may have completed
@@ -154,7 +202,7 @@ Section Decode.
     exists p z, deser p = Some m /\ (lenN p <= max_msg_size_bytes)%N /\ a = lenN p /\ wf_bytes p /\
                 bs ++ repeat 0%N z = frame p ++ rest /\
                 (z = 0 \/ (k = RFile /\ rest = [] /\ z < length (frame p))).
-  Proof.
+  Proof using crc_range.
     intros W. unfold Model.decode_full.
     destruct (rd k 4 bs) as [[b1 r1] s1] eqn:E1. destruct s1; try discriminate.
     destruct (rd k 4 r1) as [[b2 r2] s2] eqn:E2. destruct s2; try discriminate.
@@ -206,7 +254,7 @@ Section Decode.
 
   (** the declared length is compared with the limit before the buffer is made *)
   Lemma decode_alloc_bound k bs : (snd (decode_full k bs) <= max_msg_size_bytes)%N.
-  Proof.
+  Proof using crc_range.
     unfold Model.decode_full.
     destruct (rd k 4 bs) as [[b1 r1] s1]. destruct s1; cbn; try lia.
     destruct (rd k 4 r1) as [[b2 r2] s2]. destruct s2; cbn; try lia.
@@ -220,7 +268,7 @@ Section Decode.
   Lemma decode_too_big k c1 c2 c3 c4 l rest :
     length l = 4 -> (max_msg_size_bytes < of_be32 l)%N ->
     decode_full k (c1 :: c2 :: c3 :: c4 :: l ++ rest) = (OCorrupt CTooBig rest, 0%N).
-  Proof.
+  Proof using crc_range.
     intros L H. destruct l as [|a [|b [|c [|d [|e t]]]]]; try discriminate L.
     unfold Model.decode_full. rewrite rd_4. cbn [app]. rewrite rd_4.
     apply N.ltb_lt in H. rewrite H. reflexivity.
@@ -232,31 +280,21 @@ Section Decode.
     | OMsg _ rest | OCorrupt _ rest => length rest < length bs
     | OEof => True
     end.
-  Proof.
+  Proof using crc_range.
     unfold Model.decode, Model.decode_full.
-    assert (R : forall n b r s, rd k (S n) bs = (b, r, s) -> s = ROk -> length r < length bs).
-    { intros n b r s E S. subst s. destruct k; cbn [rd] in E.
-      - destruct bs; [discriminate|]. inversion E; subst. rewrite skipn_length. cbn. lia.
-      - destruct (Nat.ltb (length bs) (S n)) eqn:L; [discriminate|]. apply Nat.ltb_ge in L.
-        inversion E; subst. rewrite skipn_length. lia. }
-    assert (R' : forall n bs b r s, rd k n bs = (b, r, s) -> length r <= length bs).
-    { intros n bs' b r s E. destruct k; cbn [rd] in E.
-      - destruct n; [inversion E; subst; lia|]. destruct bs'; inversion E; subst; cbn; try lia.
-        rewrite skipn_length. cbn. lia.
-      - destruct n; [inversion E; subst; lia|].
-        destruct (Nat.ltb (length bs') (S n)); inversion E; subst; cbn; try lia. rewrite skipn_length. lia. }
     destruct (rd k 4 bs) as [[b1 r1] s1] eqn:E1.
-    pose proof (R' _ _ _ _ _ E1) as Q1.
+    pose proof (rd_rest_le _ _ _ _ _ _ E1) as Q1.
     destruct s1; cbn [fst]; auto.
-    - specialize (R _ _ _ _ E1 eq_refl).
-      destruct (rd k 4 r1) as [[b2 r2] s2] eqn:E2. pose proof (R' _ _ _ _ _ E2) as Q2.
+    - pose proof (rd_rest_lt _ _ _ _ _ E1) as R.
+      destruct (rd k 4 r1) as [[b2 r2] s2] eqn:E2. pose proof (rd_rest_le _ _ _ _ _ _ E2) as Q2.
       destruct s2; cbn [fst]; try lia.
       destruct (max_msg_size_bytes <? of_be32 b2)%N; cbn [fst]; try lia.
-      destruct (rd k (N.to_nat (of_be32 b2)) r2) as [[d r3] s3] eqn:E3. pose proof (R' _ _ _ _ _ E3) as Q3.
+      destruct (rd k (N.to_nat (of_be32 b2)) r2) as [[d r3] s3] eqn:E3. pose proof (rd_rest_le _ _ _ _ _ _ E3) as Q3.
       destruct s3; cbn [fst]; try lia.
       destruct (crc d =? of_be32 b1)%N; cbn [fst]; try lia. destruct (deser d); cbn [fst]; lia.
-    - destruct k; cbn [rd] in E1; [|discriminate].
-      destruct bs; inversion E1.
+    - exfalso. destruct k; cbn [rd] in E1.
+      + destruct bs; discriminate.
+      + destruct (Nat.ltb (length bs) 4); discriminate.
   Qed.
 
 End Decode.
